@@ -198,6 +198,11 @@ def teardown_worker():
         _server = None
 
 
+def _skip_broken_links(directory, names):
+    # (copytree's own ignore_dangling_symlinks resolves relative link targets against the cwd)
+    return [n for n in names if os.path.islink(os.path.join(directory, n)) and not os.path.exists(os.path.join(directory, n))]
+
+
 def run_case(case):
     target.reset()
     tree = case["tree"]
@@ -214,7 +219,11 @@ def run_case(case):
             if tree["single"]:
                 shutil.copyfile(root, root2)
             else:
-                shutil.copytree(root, root2)
+                shutil.copytree(root, root2, ignore=_skip_broken_links)          # links are dereferenced ...
+                for link in tree.get("links", []):                               # ... except a broken one, which stays a broken link
+                    lp = os.path.join(root2, *link["path"])
+                    if not os.path.lexists(lp):
+                        os.symlink(link["target"], lp)
         try:
             mb = create(case, base, root, scr, "base")
         except Exception as e:
